@@ -14,6 +14,7 @@ import collections
 import datetime
 import enum
 import sys
+import threading
 import types
 
 import core
@@ -184,6 +185,9 @@ ATOMS = {
     'eq_raises': EqRaises, 'priv': Priv, 'object': object, 'ellipsis': lambda: Ellipsis,
     'mappingproxy': lambda: types.MappingProxyType({'a': 1}), 'memoryview': lambda: memoryview(b'abc'),
     'frozen_empty': frozenset, 'bigint': lambda: 10 ** 40, 'nan': lambda: float('nan'),
+    # ints around the int->str conversion limit (4300 digits): str() of the longer ones raises ValueError
+    'int4300': lambda: 10 ** 4299, 'int4301': lambda: 10 ** 4300, 'int5000': lambda: -(10 ** 5000),
+    'list_of_int5000': lambda: [10 ** 5000, 1], 'dict_of_int4301': lambda: {'n': 10 ** 4300},
 }
 
 
@@ -602,6 +606,128 @@ def is_due(cond, glb, loc):
         return str(v).lower() in TRUTHY
     except Exception:
         return False
+
+
+_GATES = {}
+
+
+class Gate:
+    """a value whose first str() on the armed thread stops until it is released (forces a 2-thread schedule from
+    inside the collector's own str() call).  Slotted: it has no attributes for the collector to descend into."""
+    __slots__ = ()
+
+    def __str__(self):
+        st = _GATES.get(id(self))
+        if st is not None and not st['used'] and threading.get_ident() != st.get('controller'):
+            st['used'] = True
+            st['arrived'].set()
+            if not st['release'].wait(20):
+                raise TimeoutError('gate not released')
+        return 'gate'
+
+    def __repr__(self):
+        return 'gate'
+
+
+def run_race(case):
+    """two snapshot tracepoints with different limits on two host functions; thread 1 is stopped inside the collection
+    of its first local, thread 2 runs its tracepoint to the end, thread 1 carries on."""
+    import deep.processor.frame_collector as fcm
+    from deep.api.tracepoint.trigger import LocationAction, Trigger, LineLocation, Location
+    objs = build(case['objs'])
+    names = [n for n, _ in case['locals']]
+    src = ('def host(gate0, %s):\n    return 0\ndef host2(%s):\n    return 0\n' % (', '.join(names), ', '.join(names)))
+    glb = {'__name__': 'c05host'}
+    exec(compile(src, HOST_FILE, 'exec'), glb)
+    rig = Rig()
+    orig_time = fcm.time_ns
+    fcm.time_ns = (lambda: rig.clock)
+    gate = Gate()
+    st = {'used': False, 'arrived': threading.Event(), 'release': threading.Event(),
+          'controller': threading.get_ident()}
+    _GATES[id(gate)] = st
+    obs = {}
+    try:
+        acts = [LocationAction('tp%d' % i, None, action_config(a, case), LocationAction.ActionType.Snapshot)
+                for i, a in enumerate(case['actions'])]
+        rig.install([Trigger(LineLocation(HOST_BASE, 2, Location.Position.START), [acts[0]]),
+                     Trigger(LineLocation(HOST_BASE, 4, Location.Position.START), [acts[1]])])
+        args = [objs[j] for _, j in case['locals']]
+        shim1, shim2 = Shim(rig.handler), Shim(rig.handler)
+        res1 = {}
+
+        def first():
+            res1.update(run_traced(shim1, glb['host'], gate, *args))
+        t1 = threading.Thread(target=first)
+        t1.start()
+        overlapped = st['arrived'].wait(20)
+        res2 = run_traced(shim2, glb['host2'], *args)
+        st['release'].set()
+        t1.join(30)
+        if t1.is_alive():
+            raise core.Infra('race: thread 1 did not finish')
+        obs['overlapped'] = bool(overlapped)
+        for sh in (shim1, shim2):
+            if sh.raised:
+                obs['raised'] = sh.raised
+        for r in (res1, res2):
+            if 'exc' in r:
+                obs['host_exc'] = f'{type(r["exc"]).__name__}: {r["exc"]}'
+        loc1 = [e for e in shim1.events if e[0] == 'line' and e[1] == 2]
+        loc2 = [e for e in shim2.events if e[0] == 'line' and e[1] == 4]
+        if not loc1 or not loc2:
+            raise core.Infra('race: a host function never reached its tracepoint line')
+        frames_locals = [loc1[0][2], loc2[0][2]]
+        heap, index_of, keep = describe_heap(frames_locals)
+        held = {id(o): index_of(o) for o in keep}
+
+        def obj_of_hash(h):
+            try:
+                return held.get(int(h))
+            except (TypeError, ValueError):
+                return None
+        obs['snapshots'] = [dump_snap(x, obj_of_hash) for x in rig.push.pushed]
+        global _LIVE
+        _TOKEN[0] += 1
+        obs['live_token'] = _TOKEN[0]
+        _LIVE = {'token': _TOKEN[0], 'keep': keep, 'index_of': index_of, 'frames_locals': frames_locals,
+                 'watch_vals': [[], []], 'objs': objs, 'pushed': list(rig.push.pushed), 'held': set(held.values())}
+        return obs
+    finally:
+        _GATES.pop(id(gate), None)
+        fcm.time_ns = orig_time
+        rig.close()
+
+
+def judge_race(case, obs, live):
+    v = []
+    if 'raised' in obs:
+        v.append('trace_call raised into the host: ' + obs['raised'])
+    if not obs.get('overlapped'):
+        v.append('infrastructure: the first thread never reached the gate')
+    snaps = dict(snapshots_by_action(case, obs))
+    for ai in (0, 1):
+        if ai not in snaps:
+            v.append(f'tracepoint tp{ai}: no snapshot')
+            continue
+        live_i = dict(live, frames_locals=[live['frames_locals'][ai]])
+        v += [f'tp{ai} (while the other tracepoint ran on another thread): ' + x
+              for x in judge_bounds(case, obs, live_i, ai, snaps[ai])]
+    return v
+
+
+def gen_race(rng):
+    tight = {'vars': rng.choice([None, 25]), 'str': rng.choice([0, 4, 8]), 'coll': rng.choice([0, 2, 3]),
+             'depth': rng.choice([2, 3])}
+    loose = {'vars': None, 'str': rng.choice([None, 64]), 'coll': rng.choice([None, 20]), 'depth': rng.choice([None, 8])}
+    c = gen_case(rng, lim=tight, nobj=rng.choice([10, 16, 25]), watches=False, stream='race')
+    c['kind'] = 'race'
+    if not c['locals']:
+        c['locals'] = [['a', 0]]
+    c['actions'] = [{'limits': tight}, {'limits': loose}]
+    if rng.random() < 0.4:
+        c['actions'].reverse()
+    return c
 
 
 def watch_exprs(act):
